@@ -1,6 +1,7 @@
 import ALV.Common.Json
 import ALV.Model.C17
 import ALV.Model.C17Fine
+import ALV.Model.C17Rec
 import ALV.Spec.C17
 namespace ALV.Driver.C17
 open ALV ALV.J ALV.C17
@@ -78,21 +79,58 @@ def evJson : Ev → Json
 def sstStr : SSt → String
   | .unopened => "unopened" | .active => "active" | .stopped => "stopped" | .closed => "closed"
 
-/-- `["play", samples]` plays with the request's default chunk size, `["play", samples, cs]` with its own -/
-def parseCmd (dcs : Nat) (j : Json) : Except String Cmd := do
+/-- the options object of a play command: how the call was written (`null` / absent = omitted) -/
+def parseCall (j : Json) : Except String PlayCall := do
+  let optNat (k : String) : Except String (Option Nat) :=
+    match optField j k with
+    | some v => do pure (some (← getNat v))
+    | none => pure none
+  let dfmt ← match optField j "dfmt" with
+    | some v => do pure (some (← getStr v))
+    | none => pure none
+  pure { chunkSize := ← optNat "chunk_size", dfmt := dfmt, channels := ← optNat "channels",
+         rate := ← optNat "rate", device := ← optNat "device" }
+
+/-- `["play", samples]` plays with the request's default chunk size, `["play", samples, cs]` with its
+    own, `["play", samples, null, call]` / `["play", samples, cs, call]` as the call was written
+    (`call` = keyword arguments given; the chunk size of the model is `samplesPerChunk`) -/
+def parseCmdCall (dcs : Nat) (j : Json) : Except String (Cmd × Option PlayCall) := do
   let a ← getArr j
   match a with
-  | [Json.str "play", xs] => pure (.play (← getList getInt xs) dcs)
+  | [Json.str "play", xs] => pure (.play (← getList getInt xs) dcs, none)
   | [Json.str "play", xs, c] =>
     let c ← getNat c
     if c = 0 then throw "chunk size must be positive"
-    pure (.play (← getList getInt xs) c)
-  | [Json.str "pause", i] => pure (.ctl .pause (← getNat i))
-  | [Json.str "resume", i] => pure (.ctl .resume (← getNat i))
-  | [Json.str "stop", i] => pure (.ctl .stop (← getNat i))
-  | [Json.str "join", i] => pure (.join (← getNat i))
-  | [Json.str "close"] => pure .close
+    pure (.play (← getList getInt xs) c, none)
+  | [Json.str "play", xs, _, call] =>
+    let call ← parseCall call
+    let c := samplesPerChunk dcs call
+    if c = 0 then throw "chunk size must be positive"
+    pure (.play (← getList getInt xs) c, some call)
+  | [Json.str "pause", i] => pure (.ctl .pause (← getNat i), none)
+  | [Json.str "resume", i] => pure (.ctl .resume (← getNat i), none)
+  | [Json.str "stop", i] => pure (.ctl .stop (← getNat i), none)
+  | [Json.str "join", i] => pure (.join (← getNat i), none)
+  | [Json.str "close"] => pure (.close, none)
   | _ => throw s!"C17: bad command {j.compress}"
+
+def parseCmd (dcs : Nat) (j : Json) : Except String Cmd := do
+  pure (← parseCmdCall dcs j).1
+
+def openArgsJson (o : OpenArgs) : Json := Json.mkObj [
+  ("format", natToJson o.format), ("channels", natToJson o.channels), ("rate", natToJson o.rate),
+  ("frames_per_buffer", natToJson o.framesPerBuffer), ("output", Json.bool o.output),
+  ("output_device_index", match o.device with | some d => natToJson d | none => Json.null)]
+
+/-- spec side of the call shapes: for every play command, what `pa.open` must be asked and the
+    frames per write (`null` for commands written in the old form) -/
+def opensJson (dcs : Nat) (apiOut : Option Nat) (cmds : List (Cmd × Option PlayCall)) : Json :=
+  Json.arr <| cmds.filterMap fun (c, call) =>
+    match c, call with
+    | .play _ _, some call => some (Json.mkObj [("open", openArgsJson (openArgs dcs apiOut call)),
+        ("frames", natToJson (frames dcs call)), ("samples", natToJson (samplesPerChunk dcs call))])
+    | .play _ _, none => some Json.null
+    | _, _ => none
 
 /-- replay with the per-step record `chosen|pending…`; stops at a choice that is not enabled -/
 def replay (cfg : Cfg) : State → List Nat → List String → State × List String × Option Nat
@@ -135,10 +173,14 @@ def handleFine (j : Json) : Except String Json := do
   let dieFixed ← getBool (← field j "dieFixed")
   let cs ← getNat (← field j "cs")
   if cs = 0 then throw "cs must be positive"
-  let script ← getList (parseCmd cs) (← field j "script")
+  let cmds ← getList (parseCmdCall cs) (← field j "script")
+  let script := cmds.map (·.1)
+  let apiOut ← match optField j "apiOut" with
+    | some v => do pure (some (← getNat v))
+    | none => pure none
   let fails ← getList getBool (← field j "fails")
   let sched ← getList getNat (← field j "schedule")
-  let fc : FCfg := { cfg := { wait := wait, fixed := fixed }, fails := fails, dieFixed := dieFixed }
+  let fc : FCfg := { cfg := { wait := wait, fixed := fixed, fails := fails }, dieFixed := dieFixed }
   let (fs, steps, bad) := replayF fc (initF script) sched []
   let s := fs.base
   let outcome :=
@@ -161,19 +203,80 @@ def handleFine (j : Json) : Except String Json := do
       ("threads", nats s.threads), ("perr", Json.bool s.perr),
       ("closedAfter", Json.bool (closedAfter s)), ("noneAlive", Json.bool (noneAlive s))]),
     ("spec", Json.mkObj [
-      ("chunks", arr (fun (a : List Int × Nat) => arr (arr intToJson) (chunksSpec a.2 a.1)) audios)])]
+      ("chunks", arr (fun (a : List Int × Nat) => arr (arr intToJson) (chunksSpec a.2 a.1)) audios),
+      ("opens", opensJson cs apiOut cmds)])]
+
+/-! ### recording streams (`entry = "rec"`): histories of record / take / stop / close -/
+
+def parseRCmd (j : Json) : Except String C17Rec.RCmd := do
+  let a ← getArr j
+  match a with
+  | [Json.str "record", c] =>
+    let c ← getNat c
+    if c = 0 then throw "chunk size must be positive"
+    pure (.record c)
+  | [Json.str "take", i, n] => pure (.take (← getNat i) (← getNat n))
+  | [Json.str "stop", i] => pure (.stop (← getNat i))
+  | [Json.str "close"] => pure .close
+  | _ => throw s!"C17 rec: bad command {j.compress}"
+
+def revJson : C17Rec.REv → Json
+  | .recordOk _ => Json.arr [Json.str "record", Json.str "ok"]
+  | .recordRefused => Json.arr [Json.str "record", Json.str "IOError"]
+  | .took xs => Json.arr [Json.str "take", arr intToJson xs]
+  | .stopOk => Json.arr [Json.str "stop", Json.str "ok"]
+  | .skipped => Json.arr [Json.str "skipped", Json.str "ok"]
+  | .closeOk => Json.arr [Json.str "close", Json.str "ok"]
+
+/-- does the command finish (close the device stream of) a recording stream that is NOT the oldest
+    one still in `_recordings`?  (`list.remove` then has to compare two `RecStream`s: finding D22) -/
+def finishesLater (s : C17Rec.RState) (c : C17Rec.RCmd) : Bool :=
+  let s' := C17Rec.stepCmd s c
+  match c with
+  | .close => !s.finished && decide (s.recordings.length ≥ 2)
+  | _ => s.recordings.any fun i => !s'.recordings.contains i && s.recordings.head? != some i
+
+def triggers : C17Rec.RState → List C17Rec.RCmd → List Bool
+  | _, [] => []
+  | s, c :: cs => finishesLater s c :: triggers (C17Rec.stepCmd s c) cs
+
+def handleRec (j : Json) : Except String Json := do
+  let script ← getList parseRCmd (← field j "script")
+  let s := C17Rec.run C17Rec.init script
+  let recs := s.recs.map fun r => Json.mkObj [
+    ("cs", natToJson r.cs), ("out", arr intToJson r.out), ("reads", natToJson r.reads),
+    ("closes", natToJson r.closes), ("done", Json.bool r.done), ("recording", Json.bool r.recording)]
+  pure <| Json.mkObj [
+    ("model", Json.mkObj [
+      ("log", arr revJson s.log), ("streams", Json.arr recs), ("recordings", nats s.recordings),
+      ("terminates", natToJson s.terminated), ("finished", Json.bool s.finished),
+      ("finishes_later", arr Json.bool (triggers C17Rec.init script))]),
+    ("spec", Json.mkObj [
+      -- the property on the model's run: delivered = device data in order; closed once when done
+      ("delivered", Json.bool ((List.range s.recs.length).all fun i =>
+        match s.recs[i]? with
+        | some r => r.out ++ r.buf == C17Rec.devData i r.cs r.reads && r.closes == (if r.done then 1 else 0)
+        | none => true))])]
 
 def handle (entry : String) (j : Json) : Except String Json := do
   match entry with
   | "fine" => handleFine j
+  | "rec" => handleRec j
   | "sched" =>
     let wait ← getBool (← field j "wait")
     let fixed ← getBool (← field j "fixed")
     let cs ← getNat (← field j "cs")
     if cs = 0 then throw "cs must be positive"
-    let script ← getList (parseCmd cs) (← field j "script")
+    let cmds ← getList (parseCmdCall cs) (← field j "script")
+    let script := cmds.map (·.1)
+    let apiOut ← match optField j "apiOut" with
+      | some v => do pure (some (← getNat v))
+      | none => pure none
     let sched ← getList getNat (← field j "schedule")
-    let cfg : Cfg := { wait := wait, fixed := fixed }
+    let fails ← match optField j "fails" with
+      | some f => getList getBool f
+      | none => pure []
+    let cfg : Cfg := { wait := wait, fixed := fixed, fails := fails }
     let (s, steps, bad) := replay cfg (init script) sched []
     let outcome :=
       match bad with
@@ -192,7 +295,8 @@ def handle (entry : String) (j : Json) : Except String Json := do
         ("threads", nats s.threads), ("perr", Json.bool s.perr),
         ("closedAfter", Json.bool (closedAfter s)), ("noneAlive", Json.bool (noneAlive s))]),
       ("spec", Json.mkObj [
-        ("chunks", arr (fun (a : List Int × Nat) => arr (arr intToJson) (chunksSpec a.2 a.1)) audios)])]
+        ("chunks", arr (fun (a : List Int × Nat) => arr (arr intToJson) (chunksSpec a.2 a.1)) audios),
+      ("opens", opensJson cs apiOut cmds)])]
   | _ => throw s!"C17: unknown entry {entry}"
 
 end ALV.Driver.C17
